@@ -147,6 +147,9 @@ pub enum WOp
     SigPrepare(u8, Slot),
     SigClone(u8),
     SigDrop(u8),
+    /// Move one harness-held clone of signal `k` into a component on the slot's entity: it is dropped when that entity is
+    /// despawned (by whatever cause, possibly by a garbage collection).
+    SigMoveInto(u8, Slot),
     /// Fault (hook): remove the `SystemCommandStorage` component of a system entity.
     TakeStorage(Inst),
     /// syscall family (C17): `syscall(world, input, callee::<K>)` etc.
